@@ -158,7 +158,7 @@ static int rd_advance(MPT_INTERFACE(rawdata) *ptr)
 	long act;
 	
 	/* limit cycle size */
-	if ((act = rd->act + 1) >= rd->max) {
+	if ((act = rd->act + 1) >= rd->max && rd->max) {
 		act = 0;
 	}
 	/* reuse existing cycle */
